@@ -51,6 +51,8 @@ def ref_state(a, e, i, O, w, nu):
     p = a * (1 - e * e)
     r = p / (1 + e * math.cos(nu))
     cO, sO, ci, si, cw, sw = math.cos(O), math.sin(O), math.cos(i), math.sin(i), math.cos(w), math.sin(w)
+    if i == 0.0 or i == math.pi:
+        si = 0.0  # exactly equatorial: the orbit lies exactly in the xy plane (sin(pi) in floats is 1.2e-16)
     P = np.array([cw * cO - sw * ci * sO, cw * sO + sw * ci * cO, sw * si])
     Q = np.array([-sw * cO - cw * ci * sO, -sw * sO + cw * ci * cO, cw * si])
     return np.concatenate([r * (math.cos(nu) * P + math.sin(nu) * Q), math.sqrt(MU / p) * (-math.sin(nu) * P + (e + math.cos(nu)) * Q)])
